@@ -4,3 +4,4 @@ from . import environments  # noqa: F401
 from . import tags  # noqa: F401
 from . import batching  # noqa: F401
 from . import collectors  # noqa: F401
+from . import decode  # noqa: F401
